@@ -67,9 +67,18 @@ pub fn sockaddr() -> BoxedStrategy<String> {
     .boxed()
 }
 
-/// a client address that is never an IPv4-mapped IPv6 address (whether those equal their IPv4 form is unspecified)
+/// a client address (IPv4, IPv6, also IPv4-mapped IPv6). Whether an IPv4 address and its IPv4-mapped form
+/// are "the same IP" is unspecified: callers never pair the two (see `same_canonical_ip`).
 pub fn client_addr() -> BoxedStrategy<String> {
-    sockaddr().prop_filter("not v4-mapped", |s| !s.contains("::ffff:")).boxed()
+    sockaddr()
+}
+
+/// true if the two socket addresses denote different textual IPs that are the same after canonicalisation
+pub fn same_canonical_ip(a: &str, b: &str) -> bool {
+    match (a.parse::<std::net::SocketAddr>(), b.parse::<std::net::SocketAddr>()) {
+        (Ok(a), Ok(b)) => a.ip() != b.ip() && a.ip().to_canonical() == b.ip().to_canonical(),
+        _ => false,
+    }
 }
 
 pub fn meta() -> BoxedStrategy<BTreeMap<String, String>> {
